@@ -45,6 +45,8 @@ from bounded.oracles_linalg import (
     herm_matrix,
     mat_fp,
     random_matrix,
+    rich_indices,
+    forces_zero_fill,
     same_up_to_dropped_charges,
     solve_system,
     spec_fp,
@@ -85,6 +87,9 @@ _GROUPS_MULTI = {  # every group has >= 2 axes (concat mode with single-axis gro
 
 
 def _arr(rng, sym, fermionic, dtype, nd, sparsity=0.5, sizes=(1, 2), max_charges=2, **kw):
+    if "indices" not in kw and nd >= 2 and rng.random() < 0.75:
+        kw["indices"] = rich_indices(rng, sym, nd, sizes)
+        sparsity = min(sparsity, 0.4)
     return rand_array_spec(rng, sym, ndim=nd, fermionic=fermionic, max_charges=max_charges, sizes=sizes, sparsity=sparsity, dtype=dtype, lazy=fermionic and rng.random() < 0.5, **kw)
 
 
@@ -99,9 +104,13 @@ def _gen_struct(rng, op, sym, fermionic, dtype):
         if fermionic:
             d["kw"] = {"phase_dual": bool(rng.integers(0, 2))}
     elif op in ("fuse_insert", "fuse_concat", "fuse_default"):
-        d["a"] = _arr(rng, sym, fermionic, dtype, nd, max_charges=3 if nd < 4 else 2)
         pool = _GROUPS_MULTI if op == "fuse_concat" else _GROUPS
-        d["groups"] = pool[nd][int(rng.integers(0, len(pool[nd])))]
+        for _ in range(8):  # prefer structures where fusing has to create zeros
+            nd = int(rng.integers(2, 5))
+            d["a"] = _arr(rng, sym, fermionic, dtype, nd, max_charges=3 if nd < 4 else 2)
+            d["groups"] = pool[nd][int(rng.integers(0, len(pool[nd])))]
+            if forces_zero_fill(d["a"], d["groups"]):
+                break
     elif op == "unfuse":
         nd = int(rng.integers(3, 5))
         a = _arr(rng, sym, fermionic, dtype, nd)
@@ -303,7 +312,7 @@ def _input_dtype_failures(x, dtype, spec, feats):
     if not spec.get("pre_ops"):
         raise AssertionError("harness: constructor input block dtype")
     ops = [o[0] for o in spec["pre_ops"]]
-    return [("C20.block_dtype", f"building the input through {ops}: block {bad[0][0]!r} has dtype {bad[0][1]} != {dtype}", dict(feats, op="input:" + "+".join(ops)))]
+    return [("C20.block_dtype", f"building the input through {ops}: block {bad[0][0]!r} has dtype {bad[0][1]} != {dtype}", dict(feats, op="input:fuse" if "fuse" in ops else "input"))]
 
 
 def _check_struct(d):
@@ -311,6 +320,8 @@ def _check_struct(d):
     spec = d["a"]
     dtype = spec["dtype"]
     feats = {"op": op, "dtype": dtype, "fermionic": bool(spec.get("fermionic")), "sym": spec["sym"], "zero_block": False}
+    if op.startswith("fuse"):
+        feats["forces_zero_fill"] = forces_zero_fill(spec, d["groups"])
     x = build_array(spec)
     pre = _input_dtype_failures(x, dtype, spec, feats)
     if pre:
@@ -595,7 +606,7 @@ def check_case(d):
             # raised by library code while the inputs were being built through recorded pre_ops
             # (the harness itself never casts complex to real): an imaginary part was discarded
             spec = d.get("a") or d["m"]["spec"]
-            feats = {"op": "input:" + "+".join(o[0] for o in spec.get("pre_ops", ())), "dtype": spec["dtype"], "fermionic": bool(spec.get("fermionic")), "sym": spec["sym"], "zero_block": False}
+            feats = {"op": "input:fuse" if any(o[0] == "fuse" for o in spec.get("pre_ops", ())) else "input", "dtype": spec["dtype"], "fermionic": bool(spec.get("fermionic")), "sym": spec["sym"], "zero_block": False}
             return {"fingerprint": ("input", c, d["op"], spec_fp(spec)), "nontrivial": True, "failures": [("C20.values_kept", f"ComplexWarning while building the input: {e}", feats)]}
     return {
         "fingerprint": fp,
